@@ -1,6 +1,8 @@
 -------------------------------- MODULE MC_PartialTrace --------------------------------
 (* every dimension list of length 2..LMax with entries in Dims and every keep subset (incl. empty and full);
-   model theorems: the trace is preserved and tracing in two steps equals tracing at once (on matrix units) *)
+   model theorems: the trace is preserved and tracing in two steps equals tracing at once (on matrix units).
+   The keep argument is a SET of subsystems: the replay hands it to the implementation in every concrete form the function accepts (set, list,
+   tuple, unsorted, with a repeat, NumPy integers, and a bare integer for a singleton) and expects the one answer of the specification. *)
 EXTENDS PartialTrace, TLC
 CONSTANTS LMax, Dims, MaxTotal
 VARIABLES cfg, tab
